@@ -15,7 +15,9 @@ SHARED = {
     "DHom": ["C07", "C19", "C04"],
     "Matrix": ["C03", "C04", "C15"],
     "W3jBounds": ["C05"],
+    "W3jNorm": ["C05"],
     "GDFamily": ["C01", "C02", "C07"],
+    "DocD": ["C01", "C02", "C07"],
     "FlatSteps": ["C01", "C08", "C15"],
 }
 
